@@ -348,13 +348,13 @@ def r5_timed_wait_in_loop_is_absolute(chk):
                         origin_in_loop = any(d in blocks for d in b.def_blocks(org[1]["l"])) if b.def_blocks(org[1]["l"]) else False
                     else:
                         origin_in_loop = False
-                    src_text = b.provenance_all(c.args[0])
+                    src_text = b.provenance_all(c.args[0]) + " " + " ".join(str(x[1]) for x in b.data_slice(c.args[0]))
                 else:
                     # captured variable `root` of the nested body: find the local of that name in the loop's body
                     names, _ = lb.names
                     ls = [l for l, nm in names.items() if nm == root]
                     origin_in_loop = any(any(d in blocks for d in lb.def_blocks(l)) for l in ls) if ls else None
-                    src_text = prov + " " + " ".join(lb.provenance_all({"c": "copy", "p": {"l": l, "pr": [], "s": "", "ty": ""}}) for l in ls)
+                    src_text = prov + " " + " ".join(str(x[1]) for l in ls for x in lb.data_slice({"c": "copy", "p": {"l": l, "pr": [], "s": "", "ty": ""}}))
                 is_rcv = "rcvtimeo" in src_text.lower()
                 is_snd = "sndtimeo" in src_text.lower()
                 relative = c.name in ("sleep", "timeout")
